@@ -527,3 +527,65 @@ contract(
            "pdb2pqr.utilities:sort_dict_by_value": Items()},      # (sorted(key=lambda) - of an empty table here)
     name="optimize_hydrogens.no_partners", native=False,
 )
+
+
+# ---------------------------------------------------------------- Flip.__init__: the two alternatives of a flip (C04)
+# The atoms beyond the pivot are rotated by exactly 180 degrees about the flip bond through set_dihedral_angle (rigid, see
+# debump.py) and a *FLIP copy of each is created at the position the atom had BEFORE - so whichever alternative is kept
+# later (fix_flip / finalize, above), every atom is either where the input had it or at its rigid 180-degree image.
+def FA(nm, name, rank, bonds=()):
+    return Named(nm, Obj("pdb2pqr.structures:Atom", name=Const(name), x=Named(nm + "x", Real), y=Named(nm + "y", Real),
+                         z=Named(nm + "z", Real), bonds=Items(*[Ref(b) for b in bonds]), residue=Ref("res"), refdistance=Const(rank),
+                         hdonor=Const(0), hacceptor=Const(1), is_hydrogen=Const(0),
+                         reg=TupleOf(Ref(nm + "x"), Ref(nm + "y"), Ref(nm + "z"))))
+
+
+def stub_create_atom_flip(self, atomname, newcoords):
+    a = self.pool.pop(0)
+    a.name = atomname
+    a.x = newcoords[0]
+    a.y = newcoords[1]
+    a.z = newcoords[2]
+    self.atoms.append(a)
+    self.map[atomname] = a
+
+
+def POOLATOM(nm):
+    return Named(nm, Obj("pdb2pqr.structures:Atom", name=Const("??"), x=Real, y=Real, z=Real, bonds=Items(), residue=Ref("res"),
+                         hdonor=Const(0), hacceptor=Const(1), is_hydrogen=Const(0), reg=Const(None), reference=Const(None)))
+
+
+contract(
+    "pdb2pqr.hydrogens.structures:Flip.__init__", ["C04", "C14", "C03"],
+    params={"self": Obj("pdb2pqr.hydrogens.structures:Flip"),
+            "residue": Named("res", Obj("pdb2pqr.aa:ASN", name=Const("ASN"), is_c_term=Const(0), patches=Items(),
+                                        dihedrals=Items(Real, Named("chi2", Real)),
+                                        atoms=Items(Ref("f_ca"), Ref("f_cb"), Ref("f_cg"), Ref("f_od"), Ref("f_nd")),
+                                        map=DictOf(("CA", FA("f_ca", "CA", -1, ["f_cb"])), ("CB", FA("f_cb", "CB", 1, ["f_ca", "f_cg"])),
+                                                   ("CG", FA("f_cg", "CG", 2, ["f_cb", "f_od", "f_nd"])),
+                                                   ("OD1", FA("f_od", "OD1", 3, ["f_cg"])), ("ND2", FA("f_nd", "ND2", 3, ["f_cg"]))),
+                                        pool=Items(POOLATOM("p1"), POOLATOM("p2")),
+                                        reference=Obj("pdb2pqr.definitions:DefinitionResidue",
+                                                      dihedrals=Items(Const("N CA CB CG"), Const("CA CB CG OD1")),
+                                                      map=DictOf(("OD1", Obj("pdb2pqr.definitions:DefinitionAtom", name=Const("OD1"), bonds=Items(Const("CG")))),
+                                                                 ("ND2", Obj("pdb2pqr.definitions:DefinitionAtom", name=Const("ND2"), bonds=Items(Const("CG")))))))),
+            "optinstance": Obj("Opt", optangle=Const("CA CB CG OD1")),
+            "routines": ROUTINES()},
+    requires=[],
+    ensures=[
+        # one rotation, of this residue's flip torsion, by exactly half a turn
+        "len(calls_of('set_dihedral_angle')) == 1 and calls_of('set_dihedral_angle')[0].args['residue'] is res "
+        "and calls_of('set_dihedral_angle')[0].args['anglenum'] == 1 and calls_of('set_dihedral_angle')[0].args['angle'] == 180 + chi2",
+        # a copy of every atom beyond the pivot at the position it had before, and of no other atom
+        "'OD1FLIP' in res.map and 'ND2FLIP' in res.map and len(res.atoms) == 7",
+        "res.map['OD1FLIP'].x == old(f_od.x) and res.map['OD1FLIP'].y == old(f_od.y) and res.map['OD1FLIP'].z == old(f_od.z)",
+        "res.map['ND2FLIP'].x == old(f_nd.x) and res.map['ND2FLIP'].y == old(f_nd.y) and res.map['ND2FLIP'].z == old(f_nd.z)",
+        # the copies are in the cell list (C14), bonded to the common neighbour both ways
+        "registered(res.map['OD1FLIP']) and registered(res.map['ND2FLIP'])",
+        "exists(res.map['OD1FLIP'].bonds, lambda b: b is f_cg) and exists(f_cg.bonds, lambda b: b is res.map['OD1FLIP'])",
+    ],
+    stubs=dict(CELL_STUBS, **{"pdb2pqr.aa:Amino.create_atom": "stub_create_atom_flip"}),
+    trace={"pdb2pqr.debump:Debump.set_dihedral_angle": None, "pdb2pqr.aa:Amino.set_donors_acceptors": None,
+           "pdb2pqr.residue:Residue.set_donors_acceptors": None},
+    name="Flip.__init__", native=False,
+)
